@@ -26,6 +26,14 @@ func init() {
 		})
 	}
 	mk("C03", "The merged schema is exactly the union of the service schemas", 3, []string{"merged schema checked"}, nil, nil)
+	// the gateway knows a service's schema through introspection only: what C03 says about "every argument
+	// (name, type, default) ... of every service" starts from the schema as introspected (the C15 kernel)
+	c03 := properties["C03"]
+	c03.Kernels = append(c03.Kernels, Kernel{Name: "service-schema-as-introspected", Pkg: "introspection", Files: []string{"introspection/c15.go"}, Entry: "VerifIntrospect", Mode: "seq",
+		Quick: map[string]int{"shapes": 6}, Thorough: map[string]int{"shapes": 10},
+		Reach:     []string{"schema reconstructed"},
+		Functions: []string{"introspection.introspectRemoteSchema", "introspection.parseQueryerResponse", "introspection.parseType", "introspection.parseTypeRef", "introspection.parseArgList", "introspection.parseInputField"}})
+	c03.Assume = append(c03.Assume, "service-schema-as-introspected: the introspection answer is rendered from a descriptor in the shape the GraphQL specification prescribes (see C15)")
 	mk("C04", "The routing table names a real owner for every routable field", 4, []string{"routing table checked"}, nil, nil)
 	mk("C05", "Conflicting service schemas are rejected, independent of service order", 5, []string{"conflict rejected", "accepted in every order"}, []string{"C05-three-services-partial-overlap"}, []string{"C05-plain-types-sharing-only-id", "C05-three-services-partial-overlap"}, "C05-three-services-partial-overlap", "C05-plain-types-sharing-only-id")
 }
